@@ -56,6 +56,7 @@ Process(files, path, rest, acc, fuel) ==
     IF rest = <<>> THEN [ok |-> TRUE, decls |-> acc]
     ELSE LET d == rest[1] IN
       CASE d.kind = "garbage" -> Fail("syntax", path, "", "")
+        [] d.kind = "invalid" -> Fail("invalid", path, "", "")
         [] d.kind = "struct" ->
              LET b == BadField(d, TypeDecls(acc)) IN
              IF b # 0
